@@ -431,6 +431,10 @@ def registration_check(prop):
                 fw = attrs.get('frequency_weight')
                 want_fw = 'Some(%sf64)' % fw if fw else 'None'
                 checks.append(('frequency_weight_as_written', a[6] == want_fw, 'constructor frequency_weight argument %r vs attribute %r' % (a[6], fw), ['C08']))
+            # the key is computed ONCE, before the lookup, and that value is used for the store (a key rebuilt after the body would
+            # differ when the body changes something that takes part in the key: `&mut self`, interior mutability)
+            nkeys = len(re.findall(r'\blet\s+__key\s*=', info['tail']))
+            checks.append(('key_computed_once_before_the_lookup', nkeys == 1, '%d `let __key =` statements in the emitted wrapper' % nkeys, ['C02', 'C01', 'C20']))
             # C16: the stores are created EMPTY by infallible constructors (`..::new()` only): an initializer that depends on an
             # attribute value (e.g. with_capacity(limit)) can panic / abort for large values before the first lookup
             if prop == 'C16':
